@@ -57,6 +57,7 @@ func main() {
 			go func() { // profile runs that do not finish
 				time.Sleep(30 * time.Second)
 				pprof.StopCPUProfile()
+				fmt.Fprintln(os.Stderr, "merge failures:", mergeFails)
 				os.Exit(3)
 			}()
 		}
